@@ -9,11 +9,13 @@ from .. import constraints
 ID = "C02"
 META = {
     "engine": "smallscope",
-    "technique": "exhaustive small-scope enumeration of constraint polynomials x relations x options; full truth table over variables and ancillas; all constraint sequences from a branch-covering menu",
+    "technique": "exhaustive small-scope enumeration of constraint polynomials x relations x options; full truth table over variables and ancillas; all constraint sequences from a branch-covering menu; one slice with ~50 slack bits decided by an exact polynomial identity over the real model instead of enumerating the ancillas",
     "text": "Every integer polynomial P with <=3 variables, <=2 (quick) / <=3 (thorough) terms over {-2,-1,1,2} and offset in -2..2, every relation, log_trick, six "
-            "kinds of valid bounds and three weights is added to an empty PCBO; on the table over all variables and ancillas F>=0, min_a F=0 exactly where P R 0 "
+            "kinds of valid bounds and four weights (1, 2.5, 0.5, 2) is added to an empty PCBO (plus a two-variable slice with coefficients up to +-10); on the table over all variables and ancillas F>=0, min_a F=0 exactly where P R 0 "
             "and >=lam elsewhere (unless warned unsatisfiable), is_solution_valid agrees with the relation, only __a ancillas appear, P is unchanged. All ordered "
-            "sequences of length 2 (quick) / 3 (thorough) from a 14-constraint menu covering every branch: ancillas never reused, num_ancillas exact, penalties add.",
+            "sequences of length 2 (quick) / 3 (thorough) from a 21-constraint menu covering every branch (special forms, their near misses, constraints decided by their bounds alone): ancillas never "
+            "reused, num_ancillas exact, penalties add, recorded constraints exactly those added. Coefficients of 2^49..2^60 (about 50 slack bits): the added terms are shown to equal "
+            "lam (Q + sum c_i a_i)^2 as an exact integer identity with a contiguous slack range, and the relation is decided from that on all four (x, y).",
     "note": "Bounded: n<=3, coefficient alphabet, <=11 ancillas per constraint / <=16 variables per sequence (larger ones counted as skipped). Reference relation semantics on numpy tables.",
 }
 
